@@ -232,6 +232,13 @@ def run(prog, rep):
                 _F.floor(self, rule, found, expected, what)
     C07._ORD.clear()
     C07.run(prog, OnlyL(rep))
+    # the stanza-level lookup of the full-match node (error context) and the debug-only lookup (match-node attribute) must be the
+    # same total-or-error expression: a fallback in one of them makes success depend on whether debug attributes are configured
+    from . import C20
+    from ..lib.report import Filtered as _F2
+    nb = len(rep.items)
+    C20.run(prog, _F2(rep, lambda rule, key: rule == "E2.x-c" and key.endswith(":: context creation")))
+    rep.floor("E2.x-c", len(rep.items) - nb, 2, "stanza-level full-match lookups")
     # the match-node attribute reads exec.full_match_*_capture_index: every ExecutionContext must be built with the index of
     # the mode's own space (C03's index-space typestate, restricted to the full-match fields)
     from . import C03
